@@ -9,7 +9,7 @@ while read -r m props; do
 done <<'LIST'
 c01_bg_release_before_build C01
 c09_read_ignores_key_compare C09 C07
-c05_syncread_outside_lock C05
+c05_syncread_outside_lock C05 C04
 revert_bfdfc60 C06
 revert_18eb352 C04 C09
 revert_c45ecb6 C02
